@@ -19,6 +19,7 @@ deriving Repr
 
 inductive Op (α : Type)
   | exec (rows : List α)     -- a statement producing `rows` was executed on this cursor
+  | fail                     -- an execute (or describe) on this cursor raised: `_execute` had already dropped the result
   | one                      -- fetchone()
   | many (k : Nat)           -- fetchmany(k); k = 0 stands for fetchmany() / fetchmany(None) / fetchmany(0)
   | all                      -- fetchall()
@@ -43,6 +44,7 @@ def fetchmany {α} (c : Cur α) (size : Nat) : Option (List α) × Cur α :=
 
 def step {α} (c : Cur α) : Op α → Out α × Cur α
   | .exec rs => (.unit, { c with rows? := some rs, idx? := none })
+  | .fail => (.unit, { c with rows? := none, idx? := none })
   | .one =>
     match fetchmany c 1 with
     | (none, c') => (.noResult, c')
@@ -86,6 +88,7 @@ structure SCur (α : Type) where
 
 def sstep {α} (c : SCur α) : Op α → Out α × SCur α
   | .exec rs => (.unit, { c with res? := some rs, pos := 0 })
+  | .fail => (.unit, { c with res? := none, pos := 0 })
   | .one =>
     match c.res? with
     | none => (.noResult, c)
